@@ -374,13 +374,20 @@ Proof.
   unfold hostname_of. destruct (is_nil _); [discriminate|]. destruct (partition 37 _) as [[h pc] z].
   destruct (all_ascii h); congruence.
 Qed.
-Lemma all_octets_raises parts e : all_octets parts = Raise e -> e = ValueError.
+Lemma py_int_digits_short x : is_nil x = false -> blen x <= 3 -> exists v, py_int_digits x = Ok v.
 Proof.
-  induction parts as [|x r IH]; cbn [all_octets]; [discriminate|]. destruct (is_nil x); [discriminate|]. intros H.
-  apply bind_raise in H as [H | (v & _ & H)]; [eapply py_int_digits_raises; exact H|]. destruct (v <=? 255); [auto | discriminate].
+  intros Hn Hl. unfold py_int_digits. destruct x as [|c x]; [discriminate|]. rewrite blen_cons in *. pose proof (blen_nonneg x).
+  replace ((4300 <? 1 + blen x) || (1 + blen x =? 0)) with false by lia. eexists. reflexivity.
 Qed.
-Lemma is_ipv4_literal_raises h e : is_ipv4_literal h = Raise e -> e = ValueError.
-Proof. unfold is_ipv4_literal. destruct (_ && _); [apply all_octets_raises | discriminate]. Qed.
+(* since the repair of the int() digit-limit finding the IPv4-literal test cannot raise *)
+Lemma all_octets_total parts : exists b, all_octets parts = Ok b.
+Proof.
+  induction parts as [|x r IH]; cbn [all_octets]; [eexists; reflexivity|].
+  destruct (is_nil x) eqn:En; [eexists; reflexivity|]. destruct (blen x <=? 3) eqn:El; cbn [negb]; [|eexists; reflexivity].
+  destruct (py_int_digits_short x En ltac:(lia)) as (v & Hv). rewrite Hv. cbn [bind]. destruct (v <=? 255); [exact IH | eexists; reflexivity].
+Qed.
+Lemma is_ipv4_literal_total h : exists b, is_ipv4_literal h = Ok b.
+Proof. unfold is_ipv4_literal. destruct (_ && _); [apply all_octets_total | eexists; reflexivity]. Qed.
 
 Section Rejects.
 Variable ip_address : list Z -> ipres.
@@ -403,16 +410,20 @@ Proof.
     destruct (all_ascii netloc); congruence.
 Qed.
 
-(* Every way set_request_uri can fail. Besides the two documented errors (and the model's own
-   "not modelled" for non-ASCII network locations) a bare ValueError remains possible in exactly two situations —
-   the two open findings: a bracketed host that urlsplit accepts (IPvFuture) but ipaddress does not, and
-   int() refusing an over-long all-digit label in the IPv4-literal test. *)
-Theorem rejects_documented_or_findings uri flag e : set_request_uri ip_address uri flag = Raise e ->
-  e = MalformedUrlError \/ e = IncompleteUrlError \/ e = Unmodelled \/
-  (e = ValueError /\ exists scheme netloc path query hostname,
-      urlsplit ip_address uri = Ok (scheme, netloc, path, query, []) /\ hostname_of netloc = Ok (Some hostname) /\
-      ((mem 91 netloc = true /\ ip_address hostname = IpBad) \/
-       (startswith netloc [91] = false /\ is_ipv4_literal hostname = Raise ValueError))).
+Lemma undecided_remote_raises s n e : undecided_remote ip_address s n = Raise e -> e = ValueError \/ e = Unmodelled.
+Proof.
+  unfold undecided_remote. destruct (mem 91 n); [|discriminate]. unfold hostportsplit. intros H.
+  apply bind_raise in H as [H | ([host port] & Hs & H)].
+  - apply bind_raise in H as [H | (h & _ & H)]; [right; eapply hostname_of_raises; exact H|].
+    apply bind_raise in H as [H | (p & _ & H)]; [left; eapply port_of_raises; exact H | discriminate].
+  - destruct host as [host|]; [|left; congruence].
+    destruct (ip_address host); [left; congruence | |]; unfold hostportjoin in H; destruct (_ && _) in H; discriminate.
+Qed.
+
+(* For EVERY string: set_request_uri fails only with the two documented errors; [Unmodelled] marks the inputs outside the
+   model (non-ASCII network location). (Before the repairs 1c4d498 / 9bbf9d1 a bare ValueError was possible in two situations.) *)
+Theorem rejects_documented uri flag e : set_request_uri ip_address uri flag = Raise e ->
+  e = MalformedUrlError \/ e = IncompleteUrlError \/ e = Unmodelled.
 Proof.
   unfold set_request_uri. intros H.
   destruct (urlsplit ip_address uri) as [[[[[scheme netloc] path] query] fragment]|e0] eqn:Eu.
@@ -434,19 +445,10 @@ Proof.
   2:{ rewrite (port_of_raises _ _ Ep) in H. cbn in H. inv H. auto. }
   cbn [catch_value bind] in H.
   apply bind_raise in H as [H | (remote & Hrem & H)].
-  { (* UndecidedRemote *)
-    unfold undecided_remote in H. destruct (mem 91 netloc) eqn:Eb; [|discriminate].
-    unfold hostportsplit in H. rewrite Eh, Ep in H. cbn [bind] in H.
-    destruct (ip_address hostname) eqn:Ei.
-    - inv H. right. right. right. split; [reflexivity|]. exists (s0 :: sr), netloc, path, query, hostname.
-      split; [reflexivity|]. split; [exact Eh|]. left. split; assumption.
-    - unfold hostportjoin in H. destruct (_ && _) in H; discriminate.
-    - unfold hostportjoin in H. destruct (_ && _) in H; discriminate. }
+  { destruct (undecided_remote ip_address (s0 :: sr) netloc) as [r|e3] eqn:Er; [discriminate|].
+    destruct (undecided_remote_raises _ _ _ Er) as [-> | ->]; cbn in H; inv H; auto. }
   apply bind_raise in H as [H | (lit & _ & H)].
-  { destruct (startswith netloc [91]) eqn:Es; [discriminate|].
-    pose proof (is_ipv4_literal_raises _ _ H) as He. subst e.
-    right. right. right. split; [reflexivity|]. exists (s0 :: sr), netloc, path, query, hostname.
-    split; [reflexivity|]. split; [exact Eh|]. right. split; assumption. }
+  { destruct (mem 91 netloc); [discriminate|]. destruct (is_ipv4_literal_total hostname) as (b & Hb). congruence. }
   destruct (flag && negb lit); [|discriminate].
   apply bind_raise in H as [H | (h & _ & H)]; [|discriminate].
   left. destruct (unquote hostname) as [x|e3] eqn:Eq; [discriminate|]. rewrite (unquote_raises _ _ Eq) in H. cbn in H. congruence.
@@ -673,8 +675,7 @@ Proof.
     unfold userinfo_of. rewrite rpartition_notfound by (apply Nn; [reflexivity | reflexivity | lia]).
     cbn [truthy orb]. rewrite Pback, Qback. cbn [catch_unicode bind].
     rewrite (port_of_hostinfo netloc h p Hp Hi). cbn [catch_value bind].
-    unfold undecided_remote. rewrite (Nn 91) by (try reflexivity; lia). cbn [bind fst snd].
-    rewrite startswith_no by (apply Nn; [reflexivity | reflexivity | lia]).
+    unfold undecided_remote. rewrite (Nn 91) by (try reflexivity; lia). cbn [catch_value bind fst snd].
     rewrite Hlit. cbn [bind andb negb]. destruct lit; cbn [negb]; [reflexivity|].
     unfold unquote. rewrite unquote_parts_ascii by exact Fasc. cbn [rev app]. unfold decode_run. rewrite Fimpl, Fdec.
     cbn [catch_unicode bind]. rewrite Ftr. reflexivity.
@@ -799,9 +800,9 @@ Theorem host_rules uri flag s hi uh p q : set_request_uri ip_address uri flag = 
   exists netloc path query hostname,
     urlsplit ip_address uri = Ok (s, netloc, path, query, []) /\ hostname_of netloc = Ok (Some hostname) /\
     match uh with
-    | Some h => flag = true /\ startswith netloc [91] = false /\ is_ipv4_literal hostname = Ok false /\
+    | Some h => flag = true /\ mem 91 netloc = false /\ is_ipv4_literal hostname = Ok false /\
                 (exists h', unquote hostname = Ok h' /\ h = translate ascii_lowercase h') /\ Forall (fun c => is_upper c = false) h
-    | None => flag = false \/ startswith netloc [91] = true \/ is_ipv4_literal hostname = Ok true
+    | None => flag = false \/ mem 91 netloc = true \/ is_ipv4_literal hostname = Ok true
     end.
 Proof.
   unfold set_request_uri. intros H.
@@ -816,9 +817,9 @@ Proof.
   destruct (catch_unicode (unquote_path path)) as [uri_path|]; cbn [bind] in H; [|discriminate].
   destruct (catch_unicode (unquote_query query)) as [uri_query|]; cbn [bind] in H; [|discriminate].
   destruct (catch_value (port_of netloc)) as [port|]; cbn [bind] in H; [|discriminate].
-  destruct (undecided_remote ip_address (s0 :: sr) netloc) as [remote|] eqn:Er; cbn [bind] in H; [|discriminate].
+  destruct (undecided_remote ip_address (s0 :: sr) netloc) as [remote|e4] eqn:Er; cbn [catch_value bind] in H; [|destruct e4; discriminate].
   apply undecided_remote_scheme in Er.
-  destruct (startswith netloc [91]) eqn:Eb.
+  destruct (mem 91 netloc) eqn:Eb.
   - cbn [bind] in H. rewrite andb_false_r in H. apply Ok_inj in H. injection H as <- <- <- <- <-. rewrite Er.
     split; [exact Es|]. exists netloc, path, query, hostname. repeat split; auto.
   - destruct (is_ipv4_literal hostname) as [lit|] eqn:El; cbn [bind] in H; [|discriminate].
@@ -848,8 +849,8 @@ Proof.
     destruct (catch_unicode (unquote_path path)); cbn [bind] in H; [|discriminate].
     destruct (catch_unicode (unquote_query query)); cbn [bind] in H; [|discriminate].
     destruct (catch_value (port_of netloc)); cbn [bind] in H; [|discriminate].
-    destruct (undecided_remote ip_address scheme netloc); cbn [bind] in H; [|discriminate].
-    destruct (if startswith netloc [91] then Ok true else is_ipv4_literal hostname) as [lit|]; cbn [bind] in H; [|discriminate].
+    destruct (undecided_remote ip_address scheme netloc) as [r|e4]; cbn [catch_value bind] in H; [|destruct e4; discriminate].
+    destruct (if mem 91 netloc then Ok true else is_ipv4_literal hostname) as [lit|]; cbn [bind] in H; [|discriminate].
     destruct (flag && negb lit); [|discriminate].
     destruct (catch_unicode (unquote hostname)); cbn [bind] in H; discriminate.
 Qed.
@@ -873,11 +874,14 @@ Lemma host_not_escaped_refuted :
   exists d u' d', set_request_uri no_ip u true = Ok d /\ get_request_uri (opts_of d) = Ok u' /\
                   set_request_uri no_ip u' true = Ok d' /\ d <> d'.
 Proof. cbv zeta. eexists. eexists. eexists. split; [vm_compute; reflexivity|]. split; [vm_compute; reflexivity|]. split; [vm_compute; reflexivity|]. discriminate. Qed.
-(* finding: coap://[v1.x]/ is accepted by urlsplit (IPvFuture) and then fails in ipaddress with a bare ValueError *)
-Lemma ipvfuture_bare_valueerror_refuted :
-  set_request_uri no_ip (coap ++ [58; 47; 47; 91; 118; 49; 46; 120; 93; 47]) true = Raise ValueError.
+(* repaired (1c4d498, 9bbf9d1, 0da23bc): the former bare-ValueError inputs are MalformedUrlError / accepted as a name now,
+   and an IPv6 literal after an empty user info is no longer sent as Uri-Host *)
+Lemma ipvfuture_now_malformed :
+  set_request_uri no_ip (coap ++ [58; 47; 47; 91; 118; 49; 46; 120; 93; 47]) true = Raise MalformedUrlError.
 Proof. vm_compute. reflexivity. Qed.
-(* finding: an all-digit dotted host with a 4301-digit label makes int() raise a bare ValueError *)
-Lemma digit_limit_bare_valueerror_refuted :
-  set_request_uri no_ip (coap ++ [58; 47; 47; 49; 46; 50; 46; 51; 46] ++ repeat 57 4301 ++ [47]) true = Raise ValueError.
+Lemma digit_limit_now_a_name :
+  exists hi h, set_request_uri no_ip (coap ++ [58; 47; 47; 49; 46; 50; 46; 51; 46] ++ repeat 57 4301 ++ [47]) true = Ok (DRequest coap hi (Some h) [] []).
+Proof. eexists. eexists. vm_compute. reflexivity. Qed.
+Lemma literal_after_userinfo_not_uri_host :
+  set_request_uri only_loopback (coap ++ [58; 47; 47; 64; 91; 58; 58; 49; 93; 47]) true = Ok (DRequest coap [91; 58; 58; 49; 93] None [] []).
 Proof. vm_compute. reflexivity. Qed.
